@@ -11,10 +11,19 @@ git -C /repo worktree remove --force $wt 2>/dev/null
 git -C /repo worktree add -q --detach $wt HEAD || exit 2
 trap 'git -C /repo worktree remove --force '$wt' 2>/dev/null' EXIT
 demo=$(python3 -c "import json;print(json.load(open('$out/meta.json'))['demo_path'])")
-cmd=$(python3 -c "import json;print(json.load(open('$out/meta.json'))['demo_cmd'])")
+rawcmd=$(python3 -c "import json;print(json.load(open('$out/meta.json'))['demo_cmd'])")
 src=$(find $out -name "*_test.go" | head -1)
 [ -z "$src" ] && { echo "CONFIRM $id: no demo test file"; exit 1; }
 mkdir -p $wt/$(dirname $demo); cp $src $wt/$demo
+# the command is derived from the demo file itself (the agents' demo_cmd strings carry prose): the tests it
+# defines, run in its package, from the directory of the nearest go.mod
+tests=$(grep -oE '^func (Test[A-Za-z0-9_]+)' $src | awk '{print $2}' | paste -sd'|')
+pkgdir=$(dirname $demo); moddir=$pkgdir
+while [ "$moddir" != "." ] && [ ! -f $wt/$moddir/go.mod ]; do moddir=$(dirname $moddir); done
+rel=${pkgdir#$moddir}; rel=${rel#/}; [ "$moddir" = "." ] && rel=$pkgdir
+race=""; case "$rawcmd" in *-race*) race="-race";; esac
+cmd="cd $wt/$moddir && go test -mod=mod -vet=off -count=1 $race -run '^($tests)\$' ./$rel"
+echo "demo command: $cmd"
 cd $wt
 echo "--- demo WITHOUT patch (expect pass)"
 ( eval "$cmd" ) > /tmp/confirm-$id.nopatch.log 2>&1; r0=$?
